@@ -379,8 +379,67 @@ func c26GenTable(r *rand.Rand) []string {
 
 var c26LongReq = "x/" + strings.Repeat("seg/", 14) + strings.Repeat("y", 180)
 
+// a database holding several table records, then a restart whose routing table moves exactly ONE of the
+// recorded requests (the first / a middle / the last recorded) to another type, name, or both, with the table
+// unchanged or changed: Verify must fail exactly when some recorded request is routed differently
+func c26GenMove(r *rand.Rand, emit func(...string)) {
+	vu.Stat("sweep_move_one_recorded_request")
+	typ := c26Pick(r, []string{"main", "aux"})
+	base := c26Pick(r, []string{"zz", "q", "x"})
+	tabs := []string{"t", "u", "c"}
+	r.Shuffle(len(tabs), func(a, b int) { tabs[a], tabs[b] = tabs[b], tabs[a] })
+	k := 2 + r.Intn(2)
+	def := "~=" + typ + ":db:~:0"
+	in := []string{"mdb", "main,aux", "20", ";", "NEW", def}
+	var reqs []string
+	for j := 0; j < k; j++ {
+		req := base + "/" + tabs[j]
+		reqs = append(reqs, req)
+		if r.Intn(3) == 0 {
+			in = append(in, ";", "W", req, "k", "v1")
+		} else {
+			in = append(in, ";", "O", req)
+		}
+	}
+	in = append(in, ";", "V")
+	which := r.Intn(k) // 0 = the first recorded request of the database
+	vu.Stat([]string{"sweep_move_first_recorded", "sweep_move_middle_recorded", "sweep_move_last_recorded"}[func() int {
+		if which == 0 {
+			return 0
+		} else if which == k-1 {
+			return 2
+		}
+		return 1
+	}()])
+	ntyp, nname := typ, "db"+base
+	switch r.Intn(4) {
+	case 0:
+		ntyp = map[string]string{"main": "aux", "aux": "main"}[typ]
+		vu.Stat("sweep_move_type_only")
+	case 1:
+		nname = "other"
+		vu.Stat("sweep_move_name_only")
+	case 2:
+		ntyp, nname = map[string]string{"main": "aux", "aux": "main"}[typ], "other"
+		vu.Stat("sweep_move_type_and_name")
+	default:
+		vu.Stat("sweep_move_nothing") // the explicit route leads to the same place: Verify must still pass
+	}
+	ntab := tabs[which]
+	if r.Intn(4) == 0 {
+		ntab = ntab + "x"
+		vu.Stat("sweep_move_table_changed")
+	}
+	in = append(in, ";", "NEW", def, reqs[which]+"="+ntyp+":"+nname+":"+ntab+":0", ";", "V", ";", "O", reqs[which], ";", "O", reqs[(which+1)%k], ";", "V")
+	emit(in...)
+}
+
 func c26Gen(r *rand.Rand, n int, tier string, emit func(...string)) {
 	for i := 0; i < n; i++ {
+		if r.Intn(8) == 0 {
+			c26GenMove(r, emit)
+			continue
+		}
 		avail := "main,aux"
 		switch r.Intn(16) {
 		case 0, 1:
